@@ -23,7 +23,25 @@ def cases_for(run):
     n = 240 if run.tier == "quick" else 6000
     for i in range(n):
         api = "arena" if i % 2 == 0 else "zdd"
-        cases.append((api, Z.gen_ops(rng, api, 9 if i % 3 else 14)))
+        ops = Z.gen_ops(rng, api, 9 if i % 3 else 14)
+        if api == "arena" and i % 3 == 0 and not any(o[0] == "gc" for o in ops):
+            # a collection that keeps every handle (in another order) followed by the earlier operations again:
+            # results computed before the collection must not leak into the renumbered arena
+            nh = sum(1 for o in ops if Z.pushes(o))
+            perm = rng.shuffle(list(range(nh)))
+            if rng.chance(1, 2) and nh > 2:
+                perm = perm[:-1]          # sometimes with garbage, sometimes without
+            pos = {h: k for k, h in enumerate(perm)}
+            again = []
+            for o in ops:
+                if o[0] in ("union", "inter", "diff") and o[1] in pos and o[2] in pos:
+                    again.append([o[0], pos[o[1]], pos[o[2]]])
+                elif o[0] == "pwo" and o[1] in pos:
+                    again.append(["pwo", pos[o[1]], o[2]])
+                elif o[0] == "count" and o[1] in pos:
+                    again.append(["count", pos[o[1]]])
+            ops = ops + [["count", h] for h in range(nh) if rng.chance(1, 2)] + [["gc", perm]] + again + [["count", k] for k in range(len(perm))]
+        cases.append((api, ops))
     # exhaustive: all pairs of families over 2 variables (16 x 16) x all binary ops, both APIs
     for api in ("arena", "zdd"):
         kinds = ["union", "inter", "diff"] + (["product"] if api == "zdd" else [])
